@@ -172,10 +172,17 @@ Definition normalize (d : bsd) : bsd :=
   let m := mass d in
   if Qc_eq_dec m 0 then d else map (fun e => (fst e, snd e / m)) d.
 
-(* simulate_detectors(dist, detectors, min_photons) -> (result, physical performance) *)
-Definition simulate (d : bsd) (ds : list (option detector)) (minp : option nat) : bsd * Qc :=
+(* simulate_detectors(dist, detectors, min_photons) -> (result, physical performance).
+   [old_code = true] is the code before /repo commit d3d39a64, which took the all-PNR shortcut whatever the
+   filter; the current code takes it only when no filter is requested. *)
+Definition pnr_shortcut (old_code : bool) (minp : option nat) : bool :=
+  old_code || match minp with None => true | Some _ => false end.
+Definition simulate_cfg (old_code : bool) (d : bsd) (ds : list (option detector)) (minp : option nat) : bsd * Qc :=
+  let general := let out := expand d ds in (normalize (kept minp out), 1 - mass (dropped minp out)) in
   match d, detection_type ds with
   | [], _ => (d, 1)
-  | _, TPnr => (d, 1)
-  | _, _ => let out := expand d ds in (normalize (kept minp out), 1 - mass (dropped minp out))
+  | _, TPnr => if pnr_shortcut old_code minp then (d, 1) else general
+  | _, _ => general
   end.
+Definition simulate := simulate_cfg false.            (* the code as it is now *)
+Definition simulate_old_code := simulate_cfg true.    (* historical: before d3d39a64 *)
